@@ -62,14 +62,14 @@ func vpNext(w uint8) uint64 {
 	return e.V
 }
 
-func vpU8() uint8     { return uint8(vpNext(8)) }
-func vpU16() uint16   { return uint16(vpNext(16)) }
-func vpU32() uint32   { return uint32(vpNext(32)) }
-func vpU64() uint64   { return vpNext(64) }
-func vpF32() float32  { return math.Float32frombits(uint32(vpNext(32))) }
-func vpF64() float64  { return math.Float64frombits(vpNext(64)) }
-func vpBool() bool    { return vpNext(8) != 0 }
-func vpNParams() int  { return len(vpParams) }
+func vpU8() uint8       { return uint8(vpNext(8)) }
+func vpU16() uint16     { return uint16(vpNext(16)) }
+func vpU32() uint32     { return uint32(vpNext(32)) }
+func vpU64() uint64     { return vpNext(64) }
+func vpF32() float32    { return math.Float32frombits(uint32(vpNext(32))) }
+func vpF64() float64    { return math.Float64frombits(vpNext(64)) }
+func vpBool() bool      { return vpNext(8) != 0 }
+func vpNParams() int    { return len(vpParams) }
 func vpParam(i int) int { return vpParams[i] }
 
 func vpBytes(n int) []byte {
@@ -138,3 +138,44 @@ func vpHasPrefix(a, p []byte) bool { return len(a) >= len(p) && string(a[:len(p)
 func vpApi() {}
 
 func vpPoolMode(m int) { vpPoolModeV = m }
+
+// ---- heap observers: symbolic side = the executor's heap; native side = canonical structural dump ----
+
+type vpTreeState struct {
+	root nodeRef
+	size int
+	lv   *leafView
+}
+
+var vpSnaps []string
+
+func vpSnapshot(s vpTreeState) int {
+	a, _ := dumpTree(s.lv, s.root, s.size, true)
+	b, _ := dumpTree(s.lv, s.root, s.size, false)
+	vpSnaps = append(vpSnaps, a, b)
+	return len(vpSnaps)/2 - 1
+}
+
+func vpUnchanged(i int, s vpTreeState) bool {
+	a, _ := dumpTree(s.lv, s.root, s.size, true)
+	return a == vpSnaps[2*i]
+}
+
+func vpUnchangedButValues(i int, s vpTreeState) bool {
+	b, _ := dumpTree(s.lv, s.root, s.size, false)
+	return b == vpSnaps[2*i+1]
+}
+
+func vpRetained(s vpTreeState) uint64 {
+	_, n := dumpTree(s.lv, s.root, s.size, false)
+	return uint64(n)
+}
+
+func vpPoolOps() uint64          { return 0 }
+func vpActor(int)                {}
+func vpConflicts() uint64        { return 0 }
+func vpReaderWindow(int)         {}
+func vpReaderWrites() uint64     { return 0 }
+func vpDisciplineEvents() uint64 { return 0 }
+
+func init() { vpResetHooks = append(vpResetHooks, func() { vpSnaps = nil }) }
